@@ -67,6 +67,205 @@ def fresh_vec_ok(template, outs):
     return bool(outs)
 
 
+# ---- the state of a collector by role -----------------------------------------------------------------------------
+# What a collector remembers is a collection of values, for the variant forms a name, for maps the pending key.  How the
+# struct lays these out is private: `{ name, vec }` today; a shared generic `Frame<B, E> { body: B, envelope: E }` inside
+# every collector is the same state.  The summaries are brought to the layout the rules are written in — leaves in the
+# order (name, collection, pending key), unit leaves dropped — whenever a collector's own layout differs from it.
+ROLE_ORDER = {"name": 0, "coll": 1, "key": 2}
+ROLE_OF_TYPE = {"std::vec::Vec<value::Value>": "coll", "std::collections::BTreeMap<std::string::String, value::Value>": "coll",
+                "std::string::String": "name", "std::option::Option<std::string::String>": "key", "()": "unit"}
+
+
+def collector_layout(f, adt_path, serde_selfs):
+    """[(path of field indices, role)] of the leaves of a collector, carriers (crate-private plain structs, generic or
+    not) flattened; None when a leaf has no role (the layout is then left as it is)"""
+    def walk(tid, adt_path, args, depth):
+        a = f.adts.get(adt_path)
+        if not a or a["kind"] != "struct" or depth > 3:
+            return None
+        gen = a.get("generics") or []
+        out = []
+        for i, fl in enumerate(a["variants"][0]["fields"]):
+            t = fl.get("ty")
+            if t is None:
+                return None
+            tt = f.ty(t)
+            if tt.get("k") == "param":
+                if tt["s"] not in gen or gen.index(tt["s"]) >= len(args):
+                    return None
+                t = args[gen.index(tt["s"])]
+                tt = f.ty(t)
+            ts = re.sub(r"'\w+ ", "", tt["s"])
+            if ts in ROLE_OF_TYPE:
+                out.append(((i,), ROLE_OF_TYPE[ts]))
+                continue
+            inner = tt.get("adt") if tt.get("k") == "adt" else None
+            ia = f.adts.get(inner) if inner else None
+            if ia and ia.get("local") and inner.startswith("value::") and inner not in serde_selfs and ia["kind"] == "struct":
+                sub = walk(t, inner, tt.get("args") or [], depth + 1)
+                if sub is None:
+                    return None
+                out += [((i,) + p_, r_) for p_, r_ in sub]
+                continue
+            return None
+        return out
+    return walk(None, adt_path, [], 0)
+
+
+def _close_paren(x, open_at):
+    depth = 0
+    for j in range(open_at, len(x)):
+        if x[j] in "([":
+            depth += 1
+        elif x[j] in ")]":
+            depth -= 1
+            if depth == 0:
+                return j
+    return -1
+
+
+def _split_args(inner):
+    out_, depth, cur, q = [], 0, "", False
+    for ch in inner:
+        if ch == "'":
+            q = not q
+        if not q:
+            if ch in "([":
+                depth += 1
+            elif ch in ")]":
+                depth -= 1
+        if ch == "," and depth == 0 and not q:
+            out_.append(cur.strip())
+            cur = ""
+        else:
+            cur += ch
+    if cur.strip():
+        out_.append(cur.strip())
+    return out_
+
+
+class LayoutCanon:
+    def __init__(self, f):
+        self.f = f
+        self.serde_selfs = set((b_.get("impl") or {}).get("self_s") for b_ in f.bodies.values() if (b_.get("impl") or {}).get("trait", "").startswith("serde::"))
+        self.layouts = {}      # collector adt -> {path: canonical index} for layouts that differ from the canonical one
+        self.shapes = {}
+        for ap in sorted(x for x in self.serde_selfs if x and x.startswith("value::") and x in f.adts and f.adts[x].get("local")):
+            lay = collector_layout(f, ap, self.serde_selfs)
+            if not lay or not any(r == "coll" for _, r in lay):
+                continue
+            roles = [r for _, r in lay if r != "unit"]
+            if len(set(roles)) != len(roles):
+                continue
+            canon = sorted([(p_, r_) for p_, r_ in lay if r_ != "unit"], key=lambda pr: ROLE_ORDER[pr[1]])
+            trivial = all(len(p_) == 1 for p_, _ in lay) and [p_ for p_, _ in canon] == [(i,) for i in range(len(canon))] and len(canon) == len(lay)
+            if trivial:
+                continue
+            self.layouts[ap] = {p_: i for i, (p_, _) in enumerate(canon)}
+            self.shapes[ap] = lay
+
+    def _ctor(self, x, ap):
+        """flatten constructor terms `Short(Carrier(a, b), c)` of collector `ap` into `Short(<leaves in canonical order>)`"""
+        short = ap.split("::")[-1]
+        pos = 0
+        for _ in range(20):
+            m = re.search(r"(?<![\w:])%s\(" % re.escape(short), x[pos:])
+            if not m:
+                break
+            a0 = pos + m.start()
+            e0 = _close_paren(x, a0 + len(short))
+            if e0 < 0:
+                break
+            leaves = self._leaves(x[a0 + len(short) + 1:e0], ap, [])
+            if leaves is None:
+                pos = a0 + len(short) + 1
+                continue
+            order = self.layouts[ap]
+            args = [t for _, t in sorted(((order[p_], t) for p_, t in leaves.items() if p_ in order))]
+            new = "%s(%s)" % (short, ", ".join(args))
+            x = x[:a0] + new + x[e0 + 1:]
+            pos = a0 + len(new)
+        return x
+
+    def _leaves(self, inner, adt_path, args_t, prefix=()):
+        a = self.f.adts[adt_path]
+        fields = a["variants"][0]["fields"]
+        terms = _split_args(inner)
+        if len(terms) != len(fields):
+            return None
+        out = {}
+        gen = a.get("generics") or []
+        for i, (fl, term) in enumerate(zip(fields, terms)):
+            tt = self.f.ty(fl["ty"])
+            if tt.get("k") == "param":
+                tt = self.f.ty(args_t[gen.index(tt["s"])])
+            ts = re.sub(r"'\w+ ", "", tt["s"])
+            if ts in ROLE_OF_TYPE:
+                out[prefix + (i,)] = term
+                continue
+            inner_adt = tt.get("adt")
+            sh = inner_adt.split("::")[-1]
+            if not (term.startswith(sh + "(") and _close_paren(term, len(sh)) == len(term) - 1):
+                return None
+            sub = self._leaves(term[len(sh) + 1:-1], inner_adt, tt.get("args") or [], prefix + (i,))
+            if sub is None:
+                return None
+            out.update(sub)
+        return out
+
+    def _self(self, x, ap):
+        order = self.layouts[ap]
+        # nested updates: with_field(B, i, with_field(B.i, j, X)) -> with_field(B, i.j, X)
+        for _ in range(40):
+            m = re.search(r"with_field\(((?:[^(),]|\((?:[^()]|\([^()]*\))*\))+), ([\d.]+), with_field\(", x)
+            hit = False
+            for m in re.finditer(r"with_field\(", x):
+                e_out = _close_paren(x, m.end() - 1)
+                if e_out < 0:
+                    continue
+                parts = _split_args(x[m.end():e_out])
+                if len(parts) != 3 or not parts[2].startswith("with_field("):
+                    continue
+                e_in = _close_paren(parts[2], len("with_field"))
+                if e_in != len(parts[2]) - 1:
+                    continue
+                inner = _split_args(parts[2][len("with_field("):-1])
+                if len(inner) != 3 or inner[0] != "%s.%s" % (parts[0], parts[1]):
+                    continue
+                x = x[:m.start()] + "with_field(%s, %s.%s, %s)" % (parts[0], parts[1], inner[1], inner[2]) + x[e_out + 1:]
+                hit = True
+                break
+            if not hit:
+                break
+        # leaf paths -> canonical indices (longest first; both in reads `self.i.j` and in updates `with_field(.., i.j, `)
+        for p_, ci in sorted(order.items(), key=lambda kv: -len(kv[0])):
+            dotted = ".".join(str(i) for i in p_)
+            x = re.sub(r"(with_field\((?:[^(),]|\((?:[^()]|\([^()]*\))*\))+, )%s(?=, )" % re.escape(dotted), lambda m_: m_.group(1) + "#%d" % ci, x)
+            x = re.sub(r"(?<=\))\.%s(?![\d.])" % re.escape(dotted), ".#%d" % ci, x)
+            x = re.sub(r"\bself\.%s(?![\d.])" % re.escape(dotted), "self.#%d" % ci, x)
+        return x.replace("#", "")
+
+    def __call__(self, x, self_adt):
+        if not isinstance(x, str) or not self.layouts:
+            return x
+        for ap in self.layouts:
+            x = self._ctor(x, ap)
+        if self_adt in self.layouts:
+            x = self._self(x, self_adt)
+        return x
+
+
+_layouts = {}
+
+
+def layout_canon(f):
+    key = getattr(f, "path", id(f))
+    if key not in _layouts:
+        _layouts[key] = LayoutCanon(f)
+    return _layouts[key]
+
+
 def summarize(f, path, with_self=True):
     b = f.bodies[path]
     it = Interp(f)
@@ -89,6 +288,10 @@ def summarize(f, path, with_self=True):
         if self_ptr is not None:
             final = show(norm(it.resolve(s, s.heap[self_ptr[1]])))
         outs.append((tuple(sorted(set(norm_cond(c) for c in s.conds))), LABEL.sub("'*'", show(norm(it.resolve(s, rv)))), final))
+    lc = layout_canon(f)
+    if lc.layouts:
+        sa = ((b.get("impl") or {}).get("self_s") or "").split("<")[0]
+        outs = [(tuple((lc(a_, sa), b__) for a_, b__ in c_), lc(r_, sa), lc(fin_, sa)) for c_, r_, fin_ in outs]
     # a crate-private single-field wrapper around a collection (`struct Elements(Vec<Value>)`) is that collection
     wrappers = {}
     serde_selfs = set((b_.get("impl") or {}).get("self_s") for b_ in f.bodies.values() if (b_.get("impl") or {}).get("trait", "").startswith("serde::"))
